@@ -470,7 +470,7 @@ func (e *env) vmStream(pool []*prog) []*prog {
 			c.Hit("vm.skipped-calls-exit")
 			continue
 		}
-		jobs = append(jobs, vmJob{ID: i, Files: []string{p.File}, Reps: reps, Dir: p.Dir})
+		jobs = append(jobs, vmJob{ID: i, Files: []string{p.File}, Reps: reps, Dir: p.Dir, MaxMS: 25000})
 		idx = append(idx, i)
 	}
 	res := runVMJobs(c.Scratch, c.Workers, jobs, 120*time.Second)
@@ -498,7 +498,11 @@ func (e *env) vmStream(pool []*prog) []*prog {
 		}
 		c.Eval("vm:"+p.Src, nontrivial(t))
 		c.Hit("vm." + p.Origin)
-		c.HitN("vm.runs", reps)
+		c.HitN("vm.runs", r.Ans.Done)
+		if r.Ans.Done < reps {
+			c.Hit("vm.slow-program-fewer-runs")
+			c.Note("%s: slow in-process (%d ms for %d runs): %d instead of %d fresh-VM runs", p.Name, r.Ans.MilliS, r.Ans.Done, r.Ans.Done, reps)
+		}
 		c.SampleSome(map[string]any{"program": p.Name, "mode": "vm", "runs": reps, "ms": r.Ans.MilliS, "outcome": clip(t.describe(), 300)}, 131)
 		if t.distinct() == 1 {
 			p.vmOutcome = &t.first[0]
